@@ -56,11 +56,13 @@ Proof.
   assert (Hm : x0 <= a + b - 1 - x0).
   { destruct (Z_lt_le_dec (a + b - 1 - x0) x0) as [Hm|Hm]; [|lia].
     exfalso. rewrite Hsym in Px by lia. rewrite Hlt in Px by lia. discriminate. }
-  repeat split; try lia.
-  - intros Hp. destruct (Z_lt_le_dec x x0) as [Hl|Hl]; [rewrite Hlt in Hp by lia; discriminate|lia].
-  - rewrite Hsym in H0 by lia.
-    destruct (Z_lt_le_dec (a + b - 1 - x) x0) as [Hl|Hl]; [rewrite Hlt in H0 by lia; discriminate|lia].
-  - intros [H1 H2]. apply (Hconv x0 x (a + b - 1 - x0)); try lia; [exact Px|].
+  split; [lia|]. split; [lia|]. split; [lia|]. split; [lia|].
+  intros x Hxr. split.
+  - intros Hp. split.
+    + destruct (Z_lt_le_dec x x0) as [Hl|Hl]; [rewrite Hlt in Hp by lia; discriminate|lia].
+    + rewrite Hsym in Hp by lia.
+      destruct (Z_lt_le_dec (a + b - 1 - x) x0) as [Hl|Hl]; [rewrite Hlt in Hp by lia; discriminate|lia].
+  - intros [H1 H2]. apply (Hconv x0 x (a + b - 1 - x0)); [lia|lia|lia|exact Px|].
     rewrite <- Hsym by lia. exact Px.
 Qed.
 
@@ -155,23 +157,24 @@ Proof.
       cbn [scan_rows]. destruct (first_hit (pred y) c0 c1) as [[x0 e]|].
       + destruct Hfh as (H1 & H2 & H3 & H4 & H5). split.
         * intros s [<-|Hin].
-          -- cbn [sl_y sl_x0 sl_x1]. repeat split; try lia; try (left; reflexivity).
-             ++ subst F. cbn [px py]. intros HF.
+          -- unfold sl_ok. cbn [sl_y sl_x0 sl_x1]. split; [split; [lia|]|split; [left; reflexivity|lia]].
+             intros x. subst F. cbn [px py sl_y]. split.
+             ++ intros HF.
                 assert (c0 <= x < c1) by lia. apply H5; [assumption|]. destruct (pred y x); [reflexivity|lia].
-             ++ subst F. cbn [px py]. intros Hx.
+             ++ intros Hx.
                 assert (pred y x = true) as -> by (apply H5; lia). lia.
-          -- destruct (IH1 s Hin) as (A & B & C). repeat split; try apply A; try apply C. right; exact B.
+          -- destruct (IH1 s Hin) as (A & B & C). split; [exact A|split; [right; exact B|exact C]].
         * intros y' x [<-|Hin] Hx Hp.
           -- eexists. split; [left; reflexivity|reflexivity].
           -- destruct (IH2 y' x Hin Hx Hp) as (s & Hs1 & Hs2). exists s. split; [right; assumption|assumption].
       + destruct skip.
         * split.
-          -- intros s Hin. destruct (IH1 s Hin) as (A & B & C). repeat split; try apply A; try apply C. right; exact B.
+          -- intros s Hin. destruct (IH1 s Hin) as (A & B & C). split; [exact A|split; [right; exact B|exact C]].
           -- intros y' x [<-|Hin] Hx Hp; [rewrite Hfh in Hp by assumption; discriminate|].
              apply (IH2 y' x Hin Hx Hp).
         * exfalso. destruct (Hhit eq_refl y Hy) as (x & Hx & Hp). rewrite Hfh in Hp by assumption. discriminate. }
   destruct (G (range y0 y1) (fun y Hy => proj1 (In_range y0 y1 y) Hy)) as [G1 G2]. split.
-  - intros s Hin. destruct (G1 s Hin) as (A & B & C). apply In_range in B. repeat split; try apply A; try apply C; lia.
+  - intros s Hin. destruct (G1 s Hin) as (A & B & C). apply In_range in B. split; [exact A|split; [lia|exact C]].
   - intros p HF. subst F. cbv beta in HF.
     apply (G2 (py p) (px p)); [apply In_range; lia|lia|].
     destruct (pred (py p) (px p)); [reflexivity|lia].
@@ -198,17 +201,17 @@ Proof.
     pose proof (first_hit_spec _ _ _ Hs Hc) as Hfh.
     destruct (first_hit (fpred (sl_y s)) (sl_x0 s) (sl_x1 s)) as [[f0 f1]|]; unfold styled_scanline_new, ssl_ok;
       cbn [ss_y ss_s0 ss_s1 ss_f0 ss_f1].
-    + destruct Hfh as (H1 & H2 & H3 & H4 & H5). repeat split; try lia; try apply HS.
-      * intros HFx. assert (sl_x0 s <= x < sl_x1 s) as Hx by (apply HS, Hsub, HFx).
-        rewrite (HF s x Hin Hx) in HFx. apply H5 in HFx; lia.
+    + destruct Hfh as (H1 & H2 & H3 & H4 & H5).
+      split; [lia|]. split; [lia|]. split; [lia|]. split; [lia|]. split; [exact HS|].
+      intros x. split.
       * intros HFx. assert (sl_x0 s <= x < sl_x1 s) as Hx by (apply HS, Hsub, HFx).
         rewrite (HF s x Hin Hx) in HFx. apply H5 in HFx; lia.
       * intros Hx. rewrite (HF s x Hin) by lia. apply H5; lia.
-    + repeat split; try lia; try apply HS.
+    + split; [lia|]. split; [lia|]. split; [lia|]. split; [lia|]. split; [exact HS|].
+      intros x. split.
       * intros HFx. assert (sl_x0 s <= x < sl_x1 s) as Hx by (apply HS, Hsub, HFx).
         rewrite (HF s x Hin Hx), Hfh in HFx by assumption. discriminate.
-      * intros HFx. assert (sl_x0 s <= x < sl_x1 s) as Hx by (apply HS, Hsub, HFx).
-        rewrite (HF s x Hin Hx), Hfh in HFx by assumption. discriminate.
+      * intros Hx. lia.
   - intros y (s & Hin & <-). exists (styled_scanline_new (sl_y s) (sl_x0 s) (sl_x1 s)
                                     (first_hit (fpred (sl_y s)) (sl_x0 s) (sl_x1 s))).
     split.
@@ -247,9 +250,9 @@ Proof.
   intros Hs Hc. unfold render.
   destruct (fold_pick_cases (fun rc : fill_call => contains (fst rc) p) snd calls) as [[H1 H2]|(a & H1 & H2 & H3)];
     cbn zeta in *.
-  - rewrite H1. destruct (f p) eqn:E; [|reflexivity].
+  - etransitivity; [exact H1|]. destruct (f p) eqn:E; [|reflexivity].
     destruct Hc as (r & c & Hin & Hcon); [congruence|]. specialize (H2 _ Hin). cbn [fst] in H2. congruence.
-  - rewrite H3. destruct a as [r c]. symmetry. apply (Hs r c); assumption.
+  - etransitivity; [exact H3|]. destruct a as [r c]. symmetry. apply (Hs r c); assumption.
 Qed.
 
 Theorem last_write_char ws (f : point -> option Z) p :
@@ -264,7 +267,7 @@ Proof.
     destruct Hc as (c & Hin); [congruence|]. specialize (H2 _ Hin). cbn [fst] in H2.
     unfold point_eqb in H2. lia.
   - rewrite H3. destruct a as [q c]. cbn [fst snd] in *. symmetry. apply Hs.
-    assert (q = p) as <-; [|assumption]. unfold point_eqb in H2. destruct q, p; cbn [px py] in *. f_equal; lia.
+    assert (q = p) as <-; [|assumption]. unfold point_eqb in H2. destruct q as [qx qy], p as [x y]; cbn [px py] in *. f_equal; lia.
 Qed.
 
 (* ---- coloured spans: the common shape of what draw_styled and the pixel iterator emit ---- *)
@@ -296,7 +299,7 @@ Proof.
   - intros (q & Hq & Hin). inversion Hq; subst. apply in_map_iff in Hin. destruct Hin as (x & <- & Hx).
     apply In_range in Hx. cbn [px py]. lia.
   - intros (-> & H1 & H2). exists p. split; [reflexivity|]. apply in_map_iff. exists (px p).
-    split; [destruct p; cbn [px py] in *; subst; reflexivity|apply In_range; lia].
+    split; [destruct p as [x0 y0]; cbn [px py] in *; subst; reflexivity|apply In_range; lia].
 Qed.
 
 (* both renderings of a span list give the pixel map f, provided the spans agree with f *)
